@@ -103,7 +103,11 @@ func stmtEvents(evs []recdrv.Event) []recdrv.Event {
 type op19 func(db *gorm.DB) (out outcome, desc string)
 
 // compare runs op dry (3 ways) and for real and applies the oracle.
-func compare19(c *core.Ctx, mk func() op19, what string) {
+// splitOp builds the first parts on the receiver and returns the receiver plus a function
+// that applies the rest and the finisher to the handle ToSQL passes in.
+type splitOp func(db *gorm.DB) (recv *gorm.DB, rest func(tx *gorm.DB) outcome)
+
+func compare19(c *core.Ctx, mk func() op19, mkSplit splitOp, what string) {
 	var problems []string
 	add := func(f string, a ...interface{}) { problems = append(problems, fmt.Sprintf(f, a...)) }
 
@@ -133,6 +137,26 @@ func compare19(c *core.Ctx, mk func() op19, what string) {
 		tosqlSQL, tosqlVars = o.sql, o.vars
 		return o.res
 	})
+	// (c') ToSQL called on a handle that already carries part of the chain
+	if mkSplit != nil {
+		h19.Clock.Reset()
+		marks := h19.Rec.Mark()
+		var splitSQL string
+		recv, rest := mkSplit(h19.DB.Session(&gorm.Session{}))
+		explainedSplit := recv.ToSQL(func(tx *gorm.DB) *gorm.DB {
+			o := rest(tx)
+			splitSQL = o.sql
+			return o.res
+		})
+		if evs := h19.Rec.Since(marks); len(evs) > 0 {
+			add("ToSQL on a chained handle made %d driver calls, first: %s", len(evs), evs[0].String())
+		}
+		if splitSQL != tosqlSQL {
+			add("ToSQL on a handle that already carries part of the chain exposes a different statement:\n  chained receiver: %s\n  root receiver   : %s", splitSQL, tosqlSQL)
+		} else if explainedSplit != explained {
+			add("ToSQL on a chained handle returns %q, on the root handle %q", explainedSplit, explained)
+		}
+	}
 	if evs := h19.Rec.Since(markt); len(evs) > 0 {
 		add("ToSQL made %d driver calls, first: %s", len(evs), evs[0].String())
 	}
@@ -217,7 +241,28 @@ func run19(c *core.Ctx) {
 				return out, desc
 			}
 		}
-		compare19(c, mk, fin)
+		mkSplit := func(db *gorm.DB) (*gorm.DB, func(tx *gorm.DB) outcome) {
+			g := newGen(core.NewRand(seed))
+			g.realCols = realCols
+			parts := g.genParts(db)
+			var kept []part
+			for _, p := range parts {
+				if p.kind == "table" || (p.kind == "select" && fin == "Pluck") {
+					continue
+				}
+				kept = append(kept, p)
+			}
+			k := int(seed>>8) % (len(kept) + 1)
+			recv := db
+			for _, p := range kept[:k] {
+				recv = p.apply(recv)
+			}
+			return recv, func(tx *gorm.DB) outcome {
+				o, _, _, _ := g.runChainOn(db, tx, kept[k:], fin)
+				return o
+			}
+		}
+		compare19(c, mk, mkSplit, fin)
 	}
 	// soft-delete model
 	for k := 0; k < 2; k++ {
@@ -277,7 +322,7 @@ func run19(c *core.Ctx) {
 				return outcome{sql: res.Statement.SQL.String(), vars: res.Statement.Vars, err: res.Error, res: res}, "STag: db." + strings.Join(d, ".")
 			}
 		}
-		compare19(c, mk, "soft/"+fin)
+		compare19(c, mk, nil, "soft/"+fin)
 	}
 }
 
